@@ -39,6 +39,9 @@ def run(ctx):
     # unbounded: TLAPS proves, for ANY set of files, threads and outcomes, that the pipeline model hands out every file at
     # most once and, once the run is over, exactly once (spec/proofs/WorkerProofs.tla: inductive invariant HandedOut)
     vlib.run_tlapm(ctx, "proofs/WorkerProofs.tla")
+    # ... and that, when the run is over, what was printed is exactly the set of items of the processable files
+    # (proofs/WorkerUnion.tla: inductive invariant Sound /\ Complete, 175 obligations)
+    vlib.run_tlapm(ctx, "proofs/WorkerUnion.tla", timeout=1500, threads=10)
     outdir = ctx.path("runs")
     summ = vlib.agv_ok(ctx, ["drive", "c17", "--seed", ctx.seed, "--tier", ctx.tier, "--out", outdir], timeout=3000)
     files = [os.path.join(ctx.work, f) if not f.startswith("/") else f for f in summ["files"]]
